@@ -29,6 +29,43 @@ FORBIDDEN = re.compile(r'\bsorry\b|\badmit\b|^\s*axiom\s|native_decide|bv_decide
 CANON_NAN = 0x7ff8000000000000
 
 
+# ----------------------------------------------------------------------------------------------- T2 line coverage
+def start_cover(path):
+    """VERIF_COVER=<file>: record which lines of REPO/prometheus_client the correspondence run executes in this process
+    (sys.monitoring, each location reported once), dumped as {file: [lines]} at exit.  Used by harness/coverage_map.py
+    to state, per library function, whether the checks ever run it.  Costs nothing when the variable is unset."""
+    import atexit
+    mon = getattr(sys, 'monitoring', None)
+    if mon is None:
+        return
+    root = os.path.realpath(os.path.join(REPO, 'prometheus_client')) + os.sep
+    seen = {}
+    tool = mon.COVERAGE_ID
+    try:
+        mon.use_tool_id(tool, 'verif-cover')
+    except ValueError:
+        return
+
+    def on_line(code, line):
+        fn = code.co_filename
+        if fn.startswith(root) or os.path.realpath(fn).startswith(root):
+            seen.setdefault(os.path.relpath(os.path.realpath(fn), os.path.dirname(root.rstrip(os.sep))), set()).add(line)
+        return mon.DISABLE
+
+    mon.register_callback(tool, mon.events.LINE, on_line)
+    mon.set_events(tool, mon.events.LINE)
+
+    def dump():
+        try:
+            old = json.load(open(path)) if os.path.exists(path) else {}
+        except Exception:
+            old = {}
+        for k, v in seen.items():
+            old[k] = sorted(set(old.get(k, [])) | v)
+        json.dump(old, open(path, 'w'))
+    atexit.register(dump)
+
+
 # ----------------------------------------------------------------------------------------------- wire codecs
 def hx(s):
     return 'h:' + s.encode('utf-8').hex()
@@ -186,9 +223,13 @@ def import_closure(roots):
 
 
 def relevant_generated(prop):
-    """Generated/<X>.lean modules that Props/<prop>.lean imports transitively (so an extraction failure elsewhere is not
-    this property's broken obligation)."""
+    """Generated/<X>.lean modules that Props/<prop>.lean — and the extra modules its obligations name — import transitively
+    (so an extraction failure elsewhere is not this property's broken obligation)."""
     seen, gen, todo = set(), set(), ['PromVerif.Props.' + prop]
+    try:
+        todo += list(load_obligations(prop).get('extra_modules', ()))
+    except Exception:
+        pass
     while todo:
         m = todo.pop()
         if m in seen:
